@@ -196,6 +196,12 @@ func c19Transparent(c *Check, P, name string, m *MW) {
 			switch {
 			case hErr(e):
 				c.Report(true, P+".O1", "ERROR-UNCHANGED", I, r.Pos(), k, "the returned error is the handler's error")
+			case IsNilConst(e) && name != "IgnoreErrors" && name != "Recoverer" && func() bool {
+				hOK, _ := NilEdges(I, hErr)
+				return len(hOK) > 0 && (GuardedBy(I, r, hOK) || nilOnlyOnEdges(r, e, hOK))
+			}():
+				// a literal nil on the edge where the handler's error was tested to be nil is the handler's error
+				c.Report(true, P+".O1", "ERROR-UNCHANGED", I, r.Pos(), k, "the returned error is the handler's error (nil, on the edge where it was tested to be nil)")
 			case IsNilConst(e) && name == "IgnoreErrors":
 				// nil allowed where handler err == nil, or on the 'listed' edge
 				hOK, _ := NilEdges(I, hErr)
